@@ -27,6 +27,8 @@ func installPropertyHooks(w *World, prop string) {
 	w.genericPost = append(w.genericPost, isaObligations)
 	w.genericPre = append(w.genericPre, implPre)
 	w.genericPost = append(w.genericPost, implPost)
+	w.caseHooks = append(w.caseHooks, implCases)
+	w.caseFactHooks = append(w.caseFactHooks, implCaseFacts)
 }
 
 func propertyObligations(w *World, o checkOpts, mine []*Contract) []*Obligation { return nil }
